@@ -119,7 +119,7 @@ func checkC03(c *km.Ctx) {
 	r.NotDecided = []string{"clock behaviour / skew", "the numeric validity of each accepted duration string"}
 	r.Assume = []string{"go/types + go/ssa model the source faithfully", "time.ParseDuration returns a value or an error", "time.Until(t) = t - now"}
 
-	r.Rule("R-C03-1", "the duration handed to each issuing call of the certificate handler is <= 24 h, <= time.Until(authInfo.IssuedAt + 24 h) and >= 0 on every path; a parse error reaches no issuing call", 4)
+	r.Rule("R-C03-1", "the duration handed to each issuing call of the certificate handler is <= 24 h, <= time.Until(authInfo.IssuedAt + 24 h) and >= 0 on every path; a parse error reaches no issuing call; the session's authentication time is its signed iat, which a level upgrade keeps", 4)
 	r.Rule("R-C03-2", "validity fields: NotBefore/ValidAfter = now (or earlier by a constant); NotAfter/ValidBefore = that instant + D with D exactly the duration parameter, or a constant <= the path's cap", 3)
 	r.Rule("R-C03-3", "no unsigned wrap: every conversion of a duration-derived signed/float value to an unsigned type is dominated by the fact duration >= 0", 1)
 	r.Rule("R-C03-4", "automation certificates: the Duration of every roleRequestingCertGenParams is the constant 45 d; the issuer passes it through unchanged", 1)
